@@ -305,12 +305,12 @@ fn sub_edge_ids(input: &[u8], st: &mut Stats) -> R {
     if defined.is_empty() {
         return Ok(());
     }
-    const EDGE: [u32; 4] = [0, u32::MAX, 0x8000_0000, 0x7fff_ffff];
+    const EDGE: [u32; 12] = [0, u32::MAX, 0x8000_0000, 0x7fff_ffff, 65_535, 65_536, 65_537, 131_071, 131_072, 0x00ff_ffff, 0x0100_0000, 0x0040_0000];
     let mut map: Vec<(u32, u32)> = vec![];
     let n = 1 + cs.below(3);
     for _ in 0..n {
         let from = defined[cs.below(defined.len())];
-        let to = EDGE[cs.below(4)];
+        let to = EDGE[cs.below(EDGE.len())];
         if !map.iter().any(|(f, t)| *f == from || *t == to) {
             map.push((from, to));
         }
@@ -468,6 +468,157 @@ fn sub_structured(input: &[u8], st: &mut Stats) -> R {
     check_history(&h, st)
 }
 
+/// A history in which the *counts* the tracker keeps cross 2^16 (and 2^17): a run of 65 530 - 135 000
+/// declarations - pairwise different scalar type shapes, types of one shape, typed values, or
+/// untracked instructions - placed before, between or after a dense probe: supported types declared
+/// before and after the run, typed values at module scope, as function parameters and inside a
+/// function body, and then every consumer (OpConstant, OpSpecConstant, OpSwitch in a later function)
+/// of every one of them, each encoded with the width its declaration demands. "For all binaries"
+/// includes the large ones; nothing in the statement lets the answer depend on how much was declared.
+pub fn gen_bulk(cs: &mut Cs) -> (Vec<u32>, String) {
+    let n = match cs.below(5) {
+        0 => 65_530 + cs.below(16),
+        1 => 65_535 + cs.below(4),
+        2 => 131_066 + cs.below(12),
+        3 => 65_537 + cs.below(3_000),
+        _ => 66_000 + cs.below(69_000),
+    };
+    let kind = cs.below(5);
+    let bulk_base: u32 = [1_000u32, 20_000, 65_000, 200_000, 0x0100_0000][cs.below(5)];
+    let next = std::cell::Cell::new(1u32);
+    let fresh = || {
+        let v = next.get();
+        next.set(v + 1);
+        v
+    };
+    // (type id, literal words) of supported types
+    let mut tys: Vec<(u32, usize)> = vec![];
+    let decl = |items: &mut Vec<Item>, tys: &mut Vec<(u32, usize)>, cs: &mut Cs, k: usize| {
+        for _ in 0..k {
+            let id = fresh();
+            match cs.below(7) {
+                0 | 1 => { items.push(Item::TypeInt { id, width: 32, sign: cs.below(2) as u32 }); tys.push((id, 1)); }
+                2 | 3 => { items.push(Item::TypeInt { id, width: 64, sign: cs.below(2) as u32 }); tys.push((id, 2)); }
+                4 => { items.push(Item::TypeFloat { id, width: 64, enc: false }); tys.push((id, 2)); }
+                5 => { items.push(Item::TypeFloat { id, width: [16u32, 32][cs.below(2)], enc: false }); tys.push((id, 1)); }
+                _ => { items.push(Item::TypeInt { id, width: [8u32, 16][cs.below(2)], sign: 0 }); tys.push((id, 1)); }
+            }
+        }
+    };
+    let bulk = |items: &mut Vec<Item>, tys: &[(u32, usize)], cs: &mut Cs| {
+        let t0 = tys.first().map(|t| t.0).unwrap_or(900);
+        let t1 = tys.get(cs.below(tys.len().max(1))).map(|t| t.0).unwrap_or(901);
+        for i in 0..n as u32 {
+            let id = bulk_base + i;
+            items.push(match kind {
+                0 => Item::TypeInt { id, width: 100 + i, sign: 0 },
+                1 => Item::TypeInt { id, width: 32, sign: 1 },
+                2 => Item::Value { op: 1, ty: if i % 2 == 0 { t0 } else { t1 }, id, extra: vec![] },
+                3 => if i % 3 == 0 { Item::TypeFloat { id, width: 200 + i, enc: false } } else { Item::Value { op: 1, ty: t1, id, extra: vec![] } },
+                _ => Item::Other(vec![0x0001_0000]),
+            });
+        }
+    };
+    let mut items: Vec<Item> = vec![];
+    let place = cs.below(5);
+    if place == 0 {
+        bulk(&mut items, &tys, cs);
+    }
+    let k = 1 + cs.below(3);
+    decl(&mut items, &mut tys, cs, k);
+    if place == 1 {
+        bulk(&mut items, &tys, cs);
+    }
+    let k = 1 + cs.below(3);
+    decl(&mut items, &mut tys, cs, k);
+    // typed values at module scope
+    let mut vals: Vec<(u32, usize)> = vec![];
+    for &(t, w) in &tys.clone() {
+        if cs.bool() {
+            let id = fresh();
+            items.push(Item::Value { op: 1, ty: t, id, extra: vec![] });
+            vals.push((id, w));
+        }
+    }
+    if place == 2 {
+        bulk(&mut items, &tys, cs);
+    }
+    // a function: parameters and body values of every type
+    let fid = fresh();
+    items.push(Item::Value { op: 54, ty: tys[cs.below(tys.len())].0, id: fid, extra: vec![0, 2999] });
+    for &(t, w) in &tys.clone() {
+        if cs.bool() {
+            let id = fresh();
+            items.push(Item::Value { op: 55, ty: t, id, extra: vec![] });
+            vals.push((id, w));
+        }
+    }
+    items.push(Item::Other(vec![0x0002_00f8, fresh()]));
+    for &(t, w) in &tys.clone() {
+        let id = fresh();
+        let op = [(1u32, vec![]), (61, vec![7]), (128, vec![3, 4])][cs.below(3)].clone();
+        items.push(Item::Value { op: op.0, ty: t, id, extra: op.1 });
+        vals.push((id, w));
+    }
+    if place == 3 {
+        bulk(&mut items, &tys, cs);
+    }
+    // a value typed by a value (propagation chain)
+    if let Some(&(v, w)) = vals.get(cs.below(vals.len().max(1))) {
+        let id = fresh();
+        items.push(Item::Value { op: 1, ty: v, id, extra: vec![] });
+        vals.push((id, w));
+    }
+    items.push(Item::Other(vec![0x0001_00fd]));
+    items.push(Item::Other(vec![0x0001_0038]));
+    if place == 4 {
+        bulk(&mut items, &tys, cs);
+    }
+    // consumers: constants of every type and of a few values, then switches in a later function
+    let lit = |cs: &mut Cs, w: usize| -> Vec<u32> { (0..w).map(|_| cs.lit32()).collect() };
+    for &(t, w) in &tys.clone() {
+        let id = fresh();
+        items.push(Item::Const { spec: cs.below(3) == 0, ty: t, id, lit: lit(cs, w) });
+        vals.push((id, w));
+    }
+    for _ in 0..cs.below(4) {
+        let (v, w) = vals[cs.below(vals.len())];
+        let id = fresh();
+        items.push(Item::Const { spec: cs.bool(), ty: v, id, lit: lit(cs, w) });
+    }
+    items.push(Item::Value { op: 54, ty: tys[0].0, id: fresh(), extra: vec![0, 2999] });
+    items.push(Item::Other(vec![0x0002_00f8, fresh()]));
+    for &(v, w) in &vals.clone() {
+        if cs.below(3) != 0 {
+            let nc = 1 + cs.below(3);
+            let cases = (0..nc).map(|_| (lit(cs, w), cs.below(40) as u32)).collect();
+            items.push(Item::Switch { sel: v, default: cs.below(40) as u32, cases });
+        }
+    }
+    items.push(Item::Other(vec![0x0001_0038]));
+    let h = History { items };
+    let small: Vec<String> = h.items.iter().filter(|i| !matches!(i, Item::TypeInt { id, .. } | Item::TypeFloat { id, .. } | Item::Value { id, .. } if *id >= bulk_base && *id < bulk_base + n as u32) && !matches!(i, Item::Other(w) if w == &vec![0x0001_0000u32])).map(|i| format!("{:?}", i)).collect();
+    let mut w = h.words();
+    w[3] = 0x0200_0000;
+    (w, format!("bulk run: {} items of kind {} (0 = pairwise different int widths 100+i, 1 = identical 32-bit int types, 2 = OpUndef values of the first/another declared type, 3 = mixed float types and values, 4 = OpNop), ids {}.., placed at stage {} (0 = first, 1 = between the type groups, 2 = after the module-scope values, 3 = inside the first function body, 4 = after the first function)\nthe other instructions in order:\n{}", n, kind, bulk_base, place, small.join("\n")))
+}
+
+fn sub_bulk(input: &[u8], st: &mut Stats) -> R {
+    let mut cs = Cs::new(input);
+    let (words, desc) = gen_bulk(&mut cs);
+    let bytes = words_to_bytes(&words);
+    let dec = || desc.clone();
+    let v = c03::check_bytes(&bytes, st, &dec)?;
+    if !v.accepted {
+        // by construction every literal has the width its declaration demands
+        st.count("bulk_histories_rejected_by_both");
+        return Ok(());
+    }
+    st.count("bulk_histories");
+    st.nontrivial(hash_words(&words[words.len().saturating_sub(400)..]) ^ words.len() as u64);
+    Ok(())
+}
+
 /// the decision depends only on the current parse: B after A == B alone; A twice equal
 fn sub_independence(input: &[u8], st: &mut Stats) -> R {
     let mut cs = Cs::new(input);
@@ -544,6 +695,7 @@ pub const SUBS: &[Sub] = &[
     Sub { name: "edge-ids", f: sub_edge_ids },
     Sub { name: "redeclared-ids", f: sub_redeclared },
     Sub { name: "structured-histories", f: sub_structured },
+    Sub { name: "bulk-histories", f: sub_bulk },
 ];
 
 pub fn run(ctx: &Ctx) {
@@ -554,6 +706,7 @@ pub fn run(ctx: &Ctx) {
     drive_random(ctx, &SUBS[3], ctx.n(20_000, 10_000_000), 600);
     drive_random(ctx, &SUBS[4], ctx.n(20_000, 10_000_000), 600);
     drive_random(ctx, &SUBS[5], ctx.n(20_000, 10_000_000), 640);
+    drive_random_costly(ctx, &SUBS[6], ctx.n(12, 3_000), 400);
 }
 
 pub fn finish(ctx: &Ctx) -> i32 {
